@@ -9,4 +9,6 @@ EXTENDS HttpParseImpl, HttpStreams
 (* that gives the connection up.                                                                                      *)
 NeverDeliversAndEnds == ~(ended /\ ngot >= 1 /\ fed = total)
 NeverGivesUp == ~(ended /\ closed)
+(* for the wf-* scopes only: every stream of the scope is well-formed per HttpRef, so SegmentationIndependent is not vacuous *)
+StreamsAreWellFormed == wf
 =============================================================================
